@@ -57,7 +57,7 @@ func (s *Store) validateCommand(req *pb.RaftCmdRequest) (*peer.Peer, manifest.Re
 // region. When the store is not leader or the request header is invalid the
 // returned response includes an appropriate RegionError.
 func (s *Store) ProposeCommand(req *pb.RaftCmdRequest) (*pb.RaftCmdResponse, error) {
-	peer, _, resp, err := s.validateCommand(req)
+	peer, meta, resp, err := s.validateCommand(req)
 	if err != nil {
 		return nil, err
 	}
@@ -89,6 +89,8 @@ func (s *Store) ProposeCommand(req *pb.RaftCmdRequest) (*pb.RaftCmdResponse, err
 		if result.resp == nil {
 			return &pb.RaftCmdResponse{Header: req.Header}, nil
 		}
+		// A scan that went through the log answers for this region only, like a read.
+		trimScanResponse(meta, req, result.resp)
 		return result.resp, nil
 	case <-timer.C:
 		s.command.removeProposal(id)
@@ -261,7 +263,15 @@ func trimScanResponse(meta manifest.RegionMeta, req *pb.RaftCmdRequest, resp *pb
 			continue
 		}
 		scan := out.GetScan()
-		if scan == nil || len(scan.Kvs) == 0 {
+		if scan == nil {
+			continue
+		}
+		// A lock met on a key outside the region is none of this region's business: the
+		// scan had already passed the region's end when it ran into it.
+		if locked := scan.GetError().GetLocked(); locked != nil && !keyInRange(meta, locked.GetKey()) {
+			scan.Error = nil
+		}
+		if len(scan.Kvs) == 0 {
 			continue
 		}
 		kept := scan.Kvs[:0]
